@@ -40,6 +40,9 @@ type TimeVal struct {
 type SliceVal struct {
 	Reg, Off, Len, Cap *Term
 	Elem               types.Type
+	// Cat (optional, non-nil = known): the contents [0,len) as a concatenation of immutable parts, maintained
+	// by append (derived information used to decide `result == a ++ b ++ ...` goals structurally)
+	Cat []StrVal
 }
 
 type StructVal struct {
@@ -91,6 +94,8 @@ type PtrVal struct {
 	// pointer to an element of a byte slice
 	Slice *SliceVal
 	Idx   *Term
+	// the element belongs to a local byte array (slices of it never carry a Cat description)
+	LocalArr bool
 }
 
 type TupleVal []Val
@@ -175,7 +180,27 @@ func (x *Exec) iteVal(c *Term, a, b Val) Val {
 			UTCMid: o.Ite(c, av.UTCMid, bv.UTCMid), Ns: o.Ite(c, av.Ns, bv.Ns)}
 	case SliceVal:
 		bv := b.(SliceVal)
-		return SliceVal{o.Ite(c, av.Reg, bv.Reg), o.Ite(c, av.Off, bv.Off), o.Ite(c, av.Len, bv.Len), o.Ite(c, av.Cap, bv.Cap), av.Elem}
+		r := SliceVal{Reg: o.Ite(c, av.Reg, bv.Reg), Off: o.Ite(c, av.Off, bv.Off), Len: o.Ite(c, av.Len, bv.Len), Cap: o.Ite(c, av.Cap, bv.Cap), Elem: av.Elem}
+		if av.Cat != nil && bv.Cat != nil {
+			// pad the shorter list with empty parts, then merge part-wise
+			n := len(av.Cat)
+			if len(bv.Cat) > n {
+				n = len(bv.Cat)
+			}
+			empty := x.constString("")
+			r.Cat = make([]StrVal, n)
+			for i := 0; i < n; i++ {
+				pa, pb := empty, empty
+				if i < len(av.Cat) {
+					pa = av.Cat[i]
+				}
+				if i < len(bv.Cat) {
+					pb = bv.Cat[i]
+				}
+				r.Cat[i] = x.iteVal(c, pa, pb).(StrVal)
+			}
+		}
+		return r
 	case StructVal:
 		bv := b.(StructVal)
 		r := StructVal{T: av.T, F: make([]Val, len(av.F))}
